@@ -25,7 +25,10 @@ EXTENDS Integers, Sequences, FiniteSets, TLC, Json
 
 CONSTANTS DevSets,   \* sets of deviations to explore: {{}} = intended design only; {{}, D} = intended design and the
                      \* machine as coded (D = deviations listed as known findings), side by side in one run
-          Configs,   \* set of [V, R, keylen, cfm, em, perms, id, form, encplace]
+          Configs,   \* set of [V, R, keylen, cfm, em, perms, id, form, encplace, dv]
+                     \*   dv: how the Encrypt dictionary spells entries that do not matter for this V/R:
+                     \*   plain | len40 len64 nolen (a top-level /Length that only V 2/3 give a meaning to, or none)
+                     \*   | alt (crypt filter named other than StdCF, /CF /Length in bits, /EncryptMetadata written out)
           PwPairs,   \* set of <<user password class, owner password class | "same">>
           Tried,     \* password classes tried by the reader
           Items      \* universe of item records; ItemsOf(cfg) selects those a configuration contains
@@ -36,6 +39,7 @@ AllDev == {"AESKeepsPadding",            \* decrypt_aes128/256 return the PKCS#7
            "SaslprepErrorEscapes",       \* R6: saslprep raises PDFValueError on prohibited characters
            "SaslprepEmptyIndexError",    \* R6: saslprep indexes data[0] after mapping everything to nothing
            "ImplicitIdentityKeyError",   \* V4 without StmF/StrF (default Identity): KeyError 'StmF'
+           "V4LengthFromDict",           \* V4: key length taken from the top-level /Length (meaningful only for V 2/3)
            "TruncateCharsNotBytes"}      \* R5/R6: password cut to 127 characters before encoding instead of 127 bytes after
 ASSUME \A D \in DevSets : D \subseteq AllDev
 CodedDev == UNION DevSets        \* the largest set explored: terminal states of that machine are printed for the replay
@@ -185,6 +189,11 @@ Init ==
 Fail(exc, d) == /\ outcome' = exc /\ phase' = "done" /\ blame' = blame \cup d
                 /\ UNCHANGED <<cfg, Dev, upw, opw, tried, item, handler, pwb, key, perms, cur, val, calls>>
 
+\* the top-level /Length entry as written (0: absent).  For V 4 the crypt filter decides (AESV2 / V2 with 128 bits),
+\* for V 5 the key is 256 bits: the entry is noise there
+TopLen(c) == CASE c.dv = "len40" -> 40 [] c.dv = "len64" -> 64 [] c.dv = "nolen" -> 0 [] OTHER -> c.keylen
+V4Len == IF "V4LengthFromDict" \in Dev /\ TopLen(cfg) # 0 THEN TopLen(cfg) ELSE 128
+
 \* _initialize_password: registry lookup by V, supported_revisions, init_params
 ASelectHandler ==
   /\ phase = "select"
@@ -208,12 +217,13 @@ AEncodePassword ==
      THEN Fail("IndexError", {"SaslprepEmptyIndexError"})
      ELSE LET q == IF "TruncateCharsNotBytes" \in Dev THEN CharCut(cfg.R, tried) ELSE p IN
           /\ pwb' = q
-          /\ blame' = IF q # p THEN blame \cup {"TruncateCharsNotBytes"} ELSE blame
+          /\ blame' = (IF q # p THEN blame \cup {"TruncateCharsNotBytes"} ELSE blame)
+                       \cup (IF handler = "V4" /\ V4Len # 128 THEN {"V4LengthFromDict"} ELSE {})
           /\ phase' = IF q = "BAD" THEN "reject" ELSE IF handler = "V5" THEN "auth_owner5" ELSE "auth_user"
           /\ UNCHANGED <<cfg, Dev, upw, opw, tried, item, handler, key, outcome, perms, cur, val, calls>>
 
 \* what the reader reads back from the Encrypt dictionary
-RdNB == IF cfg.R = 2 THEN 5 ELSE (IF handler = "V4" THEN 128 ELSE cfg.keylen) \div 8   \* V4.init_params: length = 128
+RdNB == IF cfg.R = 2 THEN 5 ELSE (IF handler = "V4" THEN V4Len ELSE cfg.keylen) \div 8   \* V4.init_params: length = 128
 RdEmf == cfg.R >= 4 /\ ~cfg.em
 TryUser(p) == LET k == Key234(cfg.R, p, StoredO(cfg), cfg.perms, IdTerm(cfg), RdEmf, RdNB)   \* compute_encryption_key
               IN IF UOf(cfg.R, k, IdTerm(cfg)) = StoredU(cfg) THEN k ELSE NoKey               \* verify_encryption_key
@@ -364,6 +374,7 @@ AuthExcuse ==
   \/ blame = {"SaslprepEmptyIndexError"} /\ outcome = "IndexError"
   \/ blame = {"ImplicitIdentityKeyError"} /\ outcome = "KeyError"
   \/ blame = {"TruncateCharsNotBytes"} /\ outcome = "PDFPasswordIncorrect"
+  \/ blame = {"V4LengthFromDict"} /\ outcome = "PDFPasswordIncorrect"
 ItemExcuse ==
   \/ blame = {"AESKeepsPadding"} /\ val.enc = <<>> /\ val.spur = 0 /\ val.pad
   \/ blame = {"StreamDictNotDeciphered"} /\ LayerCount(val) = 1 /\ val.spur = 0 /\ ~val.pad
